@@ -188,7 +188,7 @@ def add_net(t, g, par, max_fanout=12):
         sinks.append(sinks[0])              # repeated sink
     if t.draw(8) == 0:
         sinks.append(src)                   # self-loop
-    weight = [1.0, 1.0, 0, 0.5, 3, 100.0][t.draw(6)]
+    weight = [1.0, 1.0, 0, 0.5, 3, 100.0, -1.0, -25][t.draw_small(8, 0.75)]
     ident = len(g.nets)
     net = HNet(src, sinks, weight, ident=ident)
     g.nets.append(net)
